@@ -99,12 +99,17 @@ def scenario(run, spec, store, tape, tf):
         counts[c.alias] = counts.get(c.alias, 0) + 1
     if any(n >= 3 for n in counts.values()):
         run.probe('alias_called_3plus_times')
-    if any(n >= 10 for a, n in counts.items() if a.startswith('out')):
+    if any(n >= 10 for a, n in counts.items() if a in set(o.alias for o in spec.outputs)):
         run.probe('ordinal_ge_10')
     if any(j[4] for j in rec.env.journal):
         run.probe('nested_suppressed')
     # restart: new cassette object over the same durable state, new recorder, new service classes
-    rep = R.replay_once(spec, run, store.open(read_only=True), rec.rec_id, thread_factory=tf)
+    cas2 = store.open(read_only=True)
+    recorder2 = TapeRecorder(cas2)
+    if tape.draw(3) == 2 and not any(st[0] == 'spawn' for st in spec.body):
+        # the replaying recorder has a history: an earlier replay of this recording by edited code failed half-way
+        R.failing_replay(spec, run, tape, cas2, rec.rec_id, recorder2)
+    rep = R.replay_once(spec, run, cas2, rec.rec_id, thread_factory=tf, recorder=recorder2)
     run.say('replay: %r' % (rep.outcome,))
     if rep.outcome.kind != 'return':
         ex = rep.outcome.exc
